@@ -1201,7 +1201,7 @@ fn check_constraint(
                         .with_code(ErrorCode::E21)
                         .with_message(format!(
                             "invalid constraint identifier `{}`",
-                            constraint.value.unwrap()
+                            constraint.id
                         ))
                         .with_labels(vec![
                             constraint.loc.primary(),
